@@ -1,9 +1,106 @@
 import LinfaSpec.Model.Proto
+import LinfaSpec.Model.Determinism
 
 namespace LinfaSpec.Drv.C20
-open LinfaSpec.Proto
+open LinfaSpec.Proto LinfaSpec.Determinism
 
-/-- stub: replaced when the property's model lands -/
-def handle (_toks : List String) : String := "bad-op"
+def showInts (xs : List Int) : String := showList toString xs
+def showNats (xs : List Nat) : String := showList toString xs
+
+/-- `parfor which=memb|dist|both threads=_ n= d= k= cents= obs= sched=`: the three k-means
+updaters executed under the schedule of the request (a permutation of the tasks), on integer
+lattice data (all arithmetic exact).  Output cells start from sentinels so that an unwritten cell
+would show. -/
+def handleParFor (toks : List String) : Option String := do
+  let which ← arg toks "which"
+  let n ← argNat toks "n"; let d ← argNat toks "d"; let k ← argNat toks "k"
+  let cents ← argInts2 toks "cents"; let obs ← argInts2 toks "obs"
+  let sched ← argNats toks "sched"
+  if cents.length ≠ k ∨ obs.length ≠ n ∨ cents.any (·.length ≠ d) ∨ obs.any (·.length ≠ d) then none
+  if k = 0 then some "panic" else
+  match which with
+  | "memb" =>
+    let m := updateMemberships cents obs sched (List.replicate n 1000000)
+    some s!"ok m={showNats m} d=- sum=-"
+  | "dist" =>
+    let ds := updateMinDists cents obs sched (List.replicate n (-1))
+    some s!"ok m=- d={showInts ds} sum={sumAfterJoin ds}"
+  | "both" =>
+    let r := updateBoth cents obs sched (List.replicate n (1000000, (-1 : Int)))
+    let ds := r.map (·.2)
+    some s!"ok m={showNats (r.map (·.1))} d={showInts ds} sum={sumAfterJoin ds}"
+  | _ => none
+
+/-- `modal keys= freqs=`: entries in the iteration order of the request -/
+def handleModal (toks : List String) : Option String := do
+  let keys ← argNats toks "keys"; let freqs ← argInts toks "freqs"
+  if keys.length ≠ freqs.length then none
+  match findModalClass (keys.zip freqs) with
+  | none => some "panic"
+  | some k => some s!"ok {k}"
+
+/-- `nbargmax classes= jll=` (`jll[c][i]`, f64 bit patterns) -/
+def handleNb (toks : List String) : Option String := do
+  let classes ← argNats toks "classes"
+  let jll ← (match arg toks "jll" with
+    | some s => parseList2 parseF64 s
+    | none => some [])
+  if classes.length ≠ jll.length then none
+  let n := match jll with | [] => 0 | r :: _ => r.length
+  if jll.any (·.length ≠ n) then none
+  match nbPredict (classes.zip jll) n with
+  | none => some "panic"
+  | some ps => some s!"ok {showNats ps}"
+
+/-- `labels t= a=<rows> b=<single column>`: rows of a `t`-column target matrix -/
+def handleLabels (toks : List String) : Option String := do
+  let t ← argNat toks "t"
+  let a ← (match arg toks "a" with
+    | some s => parseList2 parseNat s
+    | none => some [])
+  let b ← (match arg toks "b" with
+    | some s => parseList parseNat s
+    | none => some [])
+  if a.any (·.length ≠ t) then none
+  let cols := (List.range t).map fun j => a.map fun r => r.getD j 0
+  some s!"ok labels={showNats (sortedLabels cols)} combined={showNats (sortedCombinedLabels cols [b])}"
+
+def parseStop (s : String) : Option (Stop Float) :=
+  match s.splitOn ":" with
+  | ["num", k] => (parseNat k).map Stop.numClusters
+  | ["dist", h] => (parseF64 h).map Stop.distance
+  | _ => none
+
+/-- `hier n= stop=num:k|dist:<f64> steps=c1,c2;… diss=<f64>,…` -/
+def handleHier (toks : List String) : Option String := do
+  let n ← argNat toks "n"
+  let stop ← (arg toks "stop").bind parseStop
+  let steps ← (match arg toks "steps" with
+    | some s => parseList2 parseNat s
+    | none => some [])
+  let diss ← (match arg toks "diss" with
+    | some s => parseList parseF64 s
+    | none => some [])
+  if steps.length ≠ diss.length ∨ steps.any (·.length ≠ 2) then none
+  -- ParamGuard::check_ref
+  let invalid := match stop with
+    | .numClusters 0 => true
+    | .distance x => x < 0 || x.isNaN || x.isInf
+    | _ => false
+  if invalid then some "err" else
+  let st := (steps.zip diss).map fun (p, d) => (p.getD 0 0, p.getD 1 0, d)
+  match hierTransform n stop st with
+  | none => some "panic"
+  | some ls => some s!"ok {showNats ls}"
+
+def handle (toks : List String) : String :=
+  let r := match toks with
+    | "parfor" :: rest => handleParFor rest
+    | "modal" :: rest => handleModal rest
+    | "nbargmax" :: rest => handleNb rest
+    | "labels" :: rest => handleLabels rest
+    | "hier" :: rest => handleHier rest
+    | _ => none
+  r.getD "bad-op"
 
 end LinfaSpec.Drv.C20
